@@ -642,6 +642,42 @@ Proof.
   intros _ x. apply set_eqb_spec with (x := x) in E. rewrite E, diff_spec. reflexivity.
 Qed.
 
+(* ------------------------------------------------------------------ refused Saves *)
+Lemma snap_fate_not_lost sn setT addT remT : snap_fate sn setT addT remT <> Lost.
+Proof. destruct (snap_fate_cases sn setT addT remT) as [[-> _] | [-> _]]; discriminate. Qed.
+
+(* whatever Saves the backend refuses: the number of snapshots is unchanged, no snapshot is lost
+   (each is still itself or has exactly one retagged successor), a snapshot whose Save was refused
+   stays untouched, every other one is as in the fault-free run *)
+Theorem run_tag_f_no_loss repo sel fail setL addL remL fs' :
+  length sel = length repo -> length fail = length repo ->
+  run_tag_f repo sel fail setL addL remL = Done fs' ->
+  length fs' = length repo /\ (forall f, In f fs' -> f <> Lost)
+  /\ exists fs, run_tag repo sel setL addL remL = Done fs /\
+       forall i b f, nth_error fail i = Some b -> nth_error fs i = Some f ->
+                     nth_error fs' i = Some (if b then Same else f).
+Proof.
+  intros Hs Hf H. unfold run_tag_f in H.
+  destruct (run_tag repo sel setL addL remL) as [| | |fs] eqn:Er; try discriminate.
+  inversion H; subst fs'. clear H.
+  destruct (run_tag_spec _ _ _ _ _ _ Hs Er) as [Hl _].
+  pose proof (run_tag_fates _ _ _ _ _ _ Er) as Hfs.
+  assert (Hnl : forall f, In f fs -> f <> Lost).
+  { intros f Hin. rewrite Hfs in Hin. apply in_map_iff in Hin as [[sn s] [<- _]]. cbn [fst snd].
+    destruct s; [apply snap_fate_not_lost | discriminate]. }
+  split; [|split].
+  - unfold apply_fail. rewrite map_length, combine_length, Hf, Hl. apply Nat.min_id.
+  - intros f Hin. unfold apply_fail in Hin. apply in_map_iff in Hin as [[b g] [<- Hin]]. cbn [fst snd].
+    destruct b; [discriminate|]. apply Hnl. apply in_combine_r in Hin. exact Hin.
+  - exists fs. split; [reflexivity|]. clear. unfold apply_fail.
+    revert fs. induction fail as [|b0 fail IH]; intros fs i b f H1 H2.
+    + destruct i; discriminate.
+    + destruct fs as [|f0 fs]; [destruct i; discriminate|].
+      destruct i as [|i]; cbn in *.
+      * inversion H1; inversion H2; subst. reflexivity.
+      * apply (IH fs i b f H1 H2).
+Qed.
+
 (* ------------------------------------------------------------------ non-vacuity *)
 From Coq Require Import String. Open Scope string_scope.
 Example c25_nonvacuous :
@@ -656,6 +692,8 @@ Example c25_nonvacuous :
      = Done [Replaced [] (Some 1%N); Replaced [] (Some 7%N)]
   /\ run_tag [mkSnap 1 [a] None 1] [true] [[a; a]; [b]] [] [] = Done [Replaced [a; a; b] (Some 1%N)]
   /\ parse_flags [str " a , b b,,c "; str ""] = [[a; str "b b"; []; c]; [[]]]
+  /\ run_tag_f [mkSnap 1 [a] None 1; mkSnap 2 [b] None 2] [true; true] [true; false] [[c]] [] []
+     = Done [Same; Replaced [c] (Some 2%N)]
   /\ run_tag [] [] [[a]] [[b]] [] = EConflict
   /\ run_tag [] [] [] [] [] = ENothing.
 Proof. vm_compute. repeat split. Qed.
